@@ -1,6 +1,6 @@
 """Deliberately tiny pools so that keywords interact."""
 PROP_NAMES = ["a", "b", "ab", "b1", "", "foo"]
 PATTERNS = ["^a", "b$", "a|b", "^[ab]+$", "1", ".", "^$", "(a)(b)?", "a{2}", "^.{1,2}$", "[^a]", "ab*",
-            "^(ab|b1)$", "o+", "^b[0-9]$", "f.o"]
+            "^(ab|b1)$", "o+", "^b[0-9]$", "f.o", "^(ab)\\1$", "(a)\\1", "^(.)b\\1$"]
 STRINGS = ["", "a", "b", "ab", "b1", "foo", "aa", "ba", "abab", "1", "é", "é", "\U0001d11e",
-           "\U0001d11e\U0001d11e", "a b", "fo", "A", "0", "b1b1"]
+           "\U0001d11e\U0001d11e", "a b", "fo", "A", "0", "b1b1", "aba", "bbb"]
